@@ -7,8 +7,7 @@ case: ( kind form payload fmt )
   fmt 0 serde_yaml | 1 serde_json
 result: (0) rejected | (1 limit) | (1 unit n)"""
 import itertools
-import lib.vcommon as _vc  # noqa: F401  (Zv)
-from lib.vcommon import Zv
+from vcommon import Zv
 
 RULE = ("exhaustive part: every letter case of every unit spelling (9 size spellings = 50 casings, 14 interval "
         "spellings = 648 casings) x numbers {0, 1, 1023, 1024, every overflow threshold floor(2^64/mult)-1/0/+1, "
@@ -18,9 +17,8 @@ RULE = ("exhaustive part: every letter case of every unit spelling (9 size spell
         "integer spellings (+n, 0x, 0o), float literals, junk suffixes / prefixes (unknown units, fractions, signs, "
         "leading white space, non-ASCII look-alikes such as KELVIN SIGN and LONG S, non-ASCII digits); each through "
         "serde_yaml and serde_json, string scalars quoted and (where the text is a safe plain scalar) unquoted; then "
-        "random compositions number+ws+unit-ish+ws. In the quick tier the casing x number product is sampled per "
-        "casing (all casings, 6 numbers each incl. both sides of that unit's threshold); thorough takes the full "
-        "product. non-trivial = integer/float scalar, or a string with a non-empty digit prefix (the parser gets "
+        "random compositions number+ws+unit-ish+ws. The casing x number product is taken in full (quick: one front-end per "
+        "literal chosen at random, thorough: both). non-trivial = integer/float scalar, or a string with a non-empty digit prefix (the parser gets "
         "past its first rejection); distinct = distinct case line")
 ASSUMPTIONS = ["serde_yaml 0.9 / serde_json 1.0 hand a scalar to the visitor as modelled: integers in [0,2^64) to "
                "visit_u64, in [-2^63,0) to visit_i64, other numbers (floats, wider integers) to a visitor method the "
@@ -113,17 +111,10 @@ def cases(rng, tier):
     for kind, units in ((0, SIZE_UNITS), (1, [(u, None) for u in INT_UNITS])):
         for (u, mult) in units:
             nums = size_numbers(mult) if kind == 0 else INT_NUMBERS
-            edge = ([T64 // mult - 1, T64 // mult] if kind == 0 else [T63 - 1, T63])
             for cs in casings(u):
-                if thorough:
-                    pick = nums
-                else:
-                    pick = edge + [rng.choice(nums) for _ in range(4 if kind == 0 else 1)]
-                    if kind == 1 and not rng.chance(1, 3):
-                        pick = [rng.choice(edge), rng.choice(nums)]
-                for n in pick:
+                for n in nums:
                     w = rng.choice(WS_MID[:5]) if not rng.chance(1, 2) else ""
-                    out += str_cases(kind, "%d%s%s" % (n, w, cs), fmts=(rng.below(2),))
+                    out += str_cases(kind, "%d%s%s" % (n, w, cs), fmts=((0, 1) if thorough else (rng.below(2),)))
             # every number with the canonical lower-case spelling, both front-ends
             for n in nums:
                 out += str_cases(kind, "%d%s" % (n, u)) + str_cases(kind, "%d %s" % (n, u.upper()), fmts=(rng.below(2),))
